@@ -236,7 +236,10 @@ Inductive op :=
 | ESymbolByName (name : Z)              (* symtab.get_symbol_by_name(name) *)
 | EString (off : Z)                     (* strtab.get_string(off) *)
 | ENumTags                              (* dynamic.num_tags() *)
-| EGetTag (n : Z).                      (* dynamic.get_tag(n) *)
+| EGetTag (n : Z)                       (* dynamic.get_tag(n) *)
+| ESectionTyped (n : Z) (ty : Z)        (* elffile.get_section(n, type=(<the type named ty>,)) *)
+| RefetchDwarf.                         (* elffile.get_dwarf_info() once more on the ELFFile the DWARFInfo in use came
+                                           from; the client goes on with the DWARFInfo it already holds *)
 
 Inductive answer :=
 | AUnit (off pid : Z)                   (* a CompileUnit: cu_offset, header *)
